@@ -1929,3 +1929,37 @@ func (w *World) siteOfValue(vs ...ssa.Value) *ssa.Call {
 	}
 	return nil
 }
+
+// topOfCallThrough: the call in root through which instruction in (inside a helper that root
+// calls, possibly one with several call sites elsewhere) is reached; nil when there is no
+// unique such call.
+func (w *World) topOfCallThrough(in ssa.Instruction, root *ssa.Function) ssa.Instruction {
+	var found ssa.Instruction
+	n := 0
+	w.eachInstr(root, func(i2 ssa.Instruction) {
+		c, ok := i2.(*ssa.Call)
+		if !ok {
+			return
+		}
+		h := c.Call.StaticCallee()
+		for d := 0; h != nil && d < 3; d++ {
+			if h == in.Parent() {
+				found = i2
+				n++
+				return
+			}
+			// one more level: a helper calling the helper
+			var next *ssa.Function
+			w.eachInstr(h, func(i3 ssa.Instruction) {
+				if c3, ok := i3.(*ssa.Call); ok && c3.Call.StaticCallee() != nil && w.IsMod[c3.Call.StaticCallee()] && c3.Call.StaticCallee() == in.Parent() {
+					next = c3.Call.StaticCallee()
+				}
+			})
+			h = next
+		}
+	})
+	if n == 1 {
+		return found
+	}
+	return nil
+}
